@@ -56,8 +56,8 @@ func gen(e *vlib.Env) gcw.Program {
 	}
 	for t := 0; t < p.Topics; t++ {
 		ns := r.Intn(5)
-		if h := vlib.HashStr(fmt.Sprintf("%s/many-subscribers/%d", e.ID(), t)); h%8 == 0 {
-			ns = 8 + int((h/8)%7) // 8..14 subscriptions on one topic
+		if h := vlib.HashStr(e.ID() + "/many-subscribers"); h%6 == 0 {
+			ns = 8 + int((h/6+uint64(t)*3)%7) // a sixth of the programs: 8..14 subscriptions on every topic
 		}
 		for i := 0; i < ns; i++ {
 			s := gcw.SubSpec{Topic: t, During: r.Chance(0.3), Consumers: 1, NackPct: []int{0, 0, 25, 60}[r.Intn(4)], Slow: r.Intn(4),
